@@ -9,6 +9,7 @@
 #include "gf.h"
 #include "storage.h"
 #include "lang.h"
+#include "c16_gen.h"
 #ifdef LID
 #include "langdata_gen.h"
 #define CAT_(a, b) a##b
@@ -122,6 +123,7 @@ void p2_layout(void) {
     VASSERT(L_nfkd_calls == 0 && L_kdf_calls == 0 && L_rand_calls == 0 && L_time_calls == 0 && L_alloc_calls == 0 && L_free_calls == 0, "P2 no other dependency");
     VASSERT(wipes_whole(sizeof(gf_poly)) >= 1, "P2 polynomial temporary wiped");
     VASSERT(wipes_whole(sizeof(polyseed_str)) >= 1, "P2 phrase temporary wiped");
+    C16_CHECK(polyseed_encode, "C16 every temporary aggregate of polyseed_encode is wiped as a whole object");
     bool same = d.birthday == d0.birthday && d.features == d0.features && d.checksum == d0.checksum;
     for (int i = 0; i < 32; ++i) if (d.secret[i] != d0.secret[i]) same = false;
     VASSERT(same, "P2 encoding does not modify the seed");
